@@ -13,7 +13,8 @@ EXPLANATION = (
     "per record of the shaping loop; (R05.6) the preamble's 2-byte length and the number of zero bytes written are the same "
     "value, the first size of line 0, through a range-guarded cast; (R05.7) buffering is enabled before Settings and disabled "
     "after open_stream and before the destination write; (R05.8) the packet index is drawn while the lock that orders the "
-    "transport writes is held. Not decided: the drawn sizes (random) and TLS record boundaries."
+    "transport writes is held; (R05.9) the shaping loop is left early only at a check mark with no payload remaining, and a size reached "
+    "with no payload left still produces its padding-only record. Not decided: the drawn sizes (random) and TLS record boundaries."
 )
 RULE_TEXT = "one obligation per index origin, per dominance/ordering pair, per record write; non-trivial = needed an origin, constant, dominance, cycle or must-held query"
 
@@ -274,6 +275,67 @@ def r8_index_under_lock(ctx):
            "so packet k is shaped by line k+1")
 
 
+def r9_loop_exits(ctx):
+    """the shaping loop stops early only at a check mark with no payload left; a size reached with no payload left still
+    produces its padding-only record"""
+    body = co(ctx, "R05.9", S + "write_with_padding")
+    if body is None:
+        return
+    cfg, conds, o = ctx.cfg(body), ctx.conds(body), ctx.origins(body)
+    nxt = calls_norm(body, "Iterator>::next")
+    if not nxt:
+        ctx.missing("R05.9", "shaping loop in write_with_padding")
+        return
+    loop = cfg.cycle_blocks(nxt[0].bb)
+    none_edges, cm_true, empty_true, err_edges, nopayload_edges = set(), [], [], [], []
+    for c in conds.all():
+        if c.block not in loop:
+            continue
+        t = c.term
+        if c.kind == "variant" and is_call_term(t, "Iterator>::next"):
+            none_edges.update(c.edges_for("None"))
+        if c.kind == "variant" and is_call_term(t, "AsyncWriteExt::write_all", "AsyncWriteExt::flush") and "Err" in sum(c.by_succ.values(), []):
+            err_edges += c.edges_for("Err")
+        if c.kind == "bool" and isinstance(t, tuple) and t[0] == "binop" and t[1] == "Eq" and is_call_term(t[2], "Iterator>::next") and const_value(t[3]) == -1:
+            cm_true += c.edges_for(True)
+        if c.kind == "bool" and isinstance(t, tuple) and t[0] == "binop" and is_call_term(t[2], "BytesMut::len") and var_name(t[2][3][0]) == "buffer" and const_value(t[3]) == 0:
+            if t[1] == "Eq":
+                empty_true += c.edges_for(True)
+            elif t[1] == "Gt":
+                nopayload_edges += c.edges_for(False)
+    if not cm_true:
+        ctx.missing("R05.9", "comparison of the size with CHECK_MARK in the shaping loop")
+        return
+    exits = [(x, y) for x in loop for y in cfg.succ(x) if y not in loop]
+    n = 0
+    for (x, y) in sorted(exits):
+        if (x, y) in none_edges:
+            continue
+        if err_edges and cfg.edges_dominate(err_edges, y) and not cfg.edges_dominate(cm_true, y):
+            # leaves through a failed transport write
+            reach = cfg.reach([y])
+            if any(c.bb in reach for c in calls_norm(body, "Session::handle_io_error")):
+                continue
+        n += 1
+        ok = cfg.edges_dominate(cm_true, x) and bool(empty_true) and (cfg.edges_dominate(empty_true, y) or (x, y) in empty_true)
+        ctx.ob("R05.9", "shaping-loop:early-exit#%d" % n, ok, "src/session/session.rs:%s" % body.blocks[x]["tspan"]["line"],
+               "the loop is left early only at a check mark with no payload remaining" if ok else
+               "the shaping loop can stop at a size that is not a check mark (or with payload remaining): the padding-only records the scheme line prescribes after the payload is used up are not emitted")
+    ctx.floor("R05.9", "early exits of the shaping loop", n, 1)
+    # padding-only record: from the no-payload edge every way back to next() writes a padding frame
+    if nopayload_edges:
+        pw = []
+        for c in calls_norm(body, "AsyncWriteExt::write_all"):
+            t = o.of_operand(c.args[1])
+            if c.bb in loop and isinstance(t, tuple) and t[0] == "var" and t[1] != "buffer":
+                pw.append(c.bb)
+        ok, p = cfg.must_pass([e[1] for e in nopayload_edges], [nxt[0].bb], via_blocks=pw)
+        ctx.ob("R05.9", "shaping-loop:padding-only-record-written", ok and bool(pw), "", "a size reached with no payload left is emitted as a padding-only record" if ok and pw else
+               "a size reached with no payload left can be skipped without writing its padding-only record")
+    else:
+        ctx.missing("R05.9", "`remain_payload_len > 0` test in the shaping loop")
+
+
 def run(ctx):
     r1_index_origins(ctx)
     r2_stop(ctx)
@@ -282,3 +344,4 @@ def run(ctx):
     r6_padding0(ctx)
     r7_batching(ctx)
     r8_index_under_lock(ctx)
+    r9_loop_exits(ctx)
